@@ -221,7 +221,10 @@ pub fn run_outcome(ctx: &Ctx) -> (&'static str, Outcome) {
         let leaves = matches!(regime, Regime::Roster | Regime::CausalNoPropFirst);
         let sqlite_pct = if i % 12 == 0 || (thorough && i % 5 == 0) || (leaves && i % 3 == 0) { 60 } else { 0 };
         let mut sim = regime_cfg(regime, rng, sqlite_pct);
-        if prop == "C08" {
+        if matches!(prop, "C08" | "C20" | "C07") {
+            // a second group sharing users: routing (C08), snapshots of one group must never be
+            // counted, kept or released with another group's (C20), nothing of it may change on a
+            // re-delivery in the first (C07)
             sim.second_group = rng.chance(40);
         }
         if prop == "C20" {
